@@ -70,4 +70,16 @@ PROPS = {
         ],
         assumptions=["payload objects have unique keys", "ID type expressions are well-formed (no `!!`)"],
     ),
+    "C15": dict(
+        coq_props=["Properties/C15.v"],
+        run_modules=["RunC15.v"],
+        harness_cmd="c15",
+        trusted_base=COMMON_TB + [
+            "Serde.v (specification of serde_derive + serde_json for structs, Option, Vec, HashMap, untagged enums, i32/String/Value) validated on this run by RunC15.corr against graphql_client built from the working tree, through from_str and from_value",
+            "Envelope.display_error is a hand model of `impl Display for Error / PathFragment` (tied by CDisplay cases); i32::to_string is modelled by Coq's decimal printer",
+            "T = serde_json::Value stands for the data type (opaque JSON in the model)",
+            "round trip deserialize(serialize(r)) = r: evaluated in the model and observed on the implementation for every generated body (RunC15.model_roundtrip / prop_roundtrip); not yet a universally quantified theorem",
+        ],
+        assumptions=["bodies have unique keys per object", "path indices and line/column are in i32 range (the declared field types)"],
+    ),
 }
